@@ -62,7 +62,8 @@ CHECKS = {
                   "behind rejected frames",
         text="Kernel-checked: no buffer content drives _extract_frame to an exception other than the two it handles; "
              "handler failures change nothing; what stays buffered is < 7 bytes or the start of a checksum-valid "
-             "header's extent, so input always drains. Tied by driving the real receiver with every checksum-valid "
+             "header's extent, so input always drains; after 65537 quiet bytes the next well-formed data frame is handed up, from "
+             "every link state (C02_not_deaf_any_state). Tied by driving the real receiver with every checksum-valid "
              "header length 0..12 x flag byte, ACKs of every sequence value in every link state, raising handlers, "
              "each followed by probe frames that must be delivered and acknowledged.",
         note="not-deaf for extents > 330 bytes rests on the bounded-pending theorem, the probe flushes 330 bytes",
